@@ -95,8 +95,19 @@ func reprMap(it hashmap.Iterator, n, indent int) string {
 		pairs = append(pairs, [2]any{k, v})
 	}
 	// Sort the pairs. See the godoc of CmpTotal for the sorting algorithm.
+	// Keys that CmpTotal considers equal without being the same key (like
+	// (num 0) and (num 0.0), or two different maps) are ordered by their
+	// representations, so that the output only depends on the content of the
+	// map and not on the order in which the keys were added.
 	sort.Slice(pairs, func(i, j int) bool {
-		return CmpTotal(pairs[i][0], pairs[j][0]) == CmpLess
+		switch CmpTotal(pairs[i][0], pairs[j][0]) {
+		case CmpLess:
+			return true
+		case CmpEqual:
+			return ReprPlain(pairs[i][0]) < ReprPlain(pairs[j][0])
+		default:
+			return false
+		}
 	})
 	// Print the pairs.
 	for _, pair := range pairs {
